@@ -6,15 +6,17 @@
 # Only ExtrOcamlBasic may be imported by the extraction files; N/Z stay inductive.
 set -e
 ROOT="$(cd "$(dirname "$0")/.." && pwd)"
-for v in "$ROOT"/coq/extract/Extract*.v; do
+# a check of another tree (VERIF_REPO) works on a private copy of coq/ and a private build directory (lib/vcommon.py)
+COQD="${VERIF_COQ:-$ROOT/coq}"; BLD="${VERIF_BUILD:-$ROOT/build}"
+for v in "$COQD"/extract/Extract*.v; do
   [ -f "$v" ] || continue
   base=$(basename "$v" .v); name=$(echo "${base#Extract}" | tr 'A-Z' 'a-z')
   [ -n "$1" ] && [ "$1" != "$name" ] && continue
-  d="$ROOT/build/extract/$name"; mkdir -p "$d"
+  d="$BLD/extract/$name"; mkdir -p "$d"
   drv="$ROOT/harness/ocaml/${name}_driver.ml"
   # rebuild only when inputs are newer than the binary
-  if [ -x "$d/${name}_driver" ] && [ -z "$(find "$v" "$drv" "$ROOT"/coq/model "$ROOT"/coq/spec "$ROOT"/coq/gen -newer "$d/${name}_driver" -name '*.v*' -o -newer "$d/${name}_driver" -name '*.ml' 2>/dev/null | head -1)" ]; then continue; fi
-  (cd "$d" && timeout 900 coqc -Q "$ROOT/coq" IT -o "$d/$base.vo" "$v" > extract.log 2>&1) || { cat "$d/extract.log"; exit 1; }
+  if [ -x "$d/${name}_driver" ] && [ -z "$(find "$v" "$drv" "$COQD"/model "$COQD"/spec "$COQD"/gen -newer "$d/${name}_driver" -name '*.v*' -o -newer "$d/${name}_driver" -name '*.ml' 2>/dev/null | head -1)" ]; then continue; fi
+  (cd "$d" && timeout 900 coqc -Q "$COQD" IT -o "$d/$base.vo" "$v" > extract.log 2>&1) || { cat "$d/extract.log"; exit 1; }
   cp "$drv" "$d/"
   (cd "$d" && rm -f *.cmi *.cmx *.o && ocamlfind ocamlopt -O3 -w -a -o "${name}_driver" "$name.mli" "$name.ml" "${name}_driver.ml" 2>/dev/null || ocamlfind ocamlopt -w -a -o "${name}_driver" "$name.mli" "$name.ml" "${name}_driver.ml")
 done
